@@ -140,6 +140,20 @@ EXTRA4 = {
  "C20": ("; map ranges on query paths; appends onto package-level slices through locals", " No query answer is assembled in map order."),
 }
 
+EXTRA5 = {
+ "C03": ("; id/DID binding of stored documents", " A caller-supplied document is stored under DID d only if document.id == d."),
+ "C05": ("; id/DID binding of stored documents", " A caller-supplied document is stored under DID d only if document.id == d."),
+ "C07": ("; exceptions of the blocked-address set", " Only the gov module account is taken off the blocked set."),
+ "C08": ("; raw pnft store writes on handler call trees; class-delete guard", " PNFT handlers write only state the export walks; a class is deleted only at zero supply."),
+ "C09": ("; typed-key position/field agreement; in-place writes into store values", " Distinct genesis keys decode to distinct store keys; store values are not modified in place."),
+ "C10": ("; clock/random sources reaching state; upgrade-handler-shaped functions in scope", " A block executed again after a restart sees the same inputs; handler wrappers do no file I/O."),
+ "C11": ("; active-only answers of the read operation", " The read operation answers active entries only."),
+ "C16": ("; provenance of the stored DID document", " The document a DID handler stores is the validated message document."),
+ "C17": ("; exceptions of the blocked-address set", " Only the gov module account is taken off the blocked set."),
+ "C18": ("; one-sided range iterations", " Range iterations inside a family's store are bounded on both sides or on neither."),
+ "C20": ("; goroutine and channel scan of validation/query code", " Validation, sign-bytes, query and genesis-validation code starts no goroutine and uses no channel."),
+}
+
 PENDING_REASON = "check not built yet in this round (planned per DESIGN.md section 4); no claim is made until the checker rule exists"
 
 def main():
@@ -157,6 +171,8 @@ def main():
                 tech, text = tech + EXTRA3[pid][0], text + EXTRA3[pid][1]
             if pid in EXTRA4:
                 tech, text = tech + EXTRA4[pid][0], text + EXTRA4[pid][1]
+            if pid in EXTRA5:
+                tech, text = tech + EXTRA5[pid][0], text + EXTRA5[pid][1]
             if pid in ("C01","C02","C03","C04","C05","C06","C07","C08","C11","C12","C13","C15","C16","C18"):
                 tech, text = tech + EXTRA2["*"][0], text + EXTRA2["*"][1]
             checks.append({
